@@ -3,6 +3,8 @@ import Yuiv.Proofs.C13Trans
 import Yuiv.Proofs.C13Dense
 import Yuiv.Proofs.C13Block
 import Yuiv.Proofs.C13Raw
+import Yuiv.Proofs.C13Perm
+import Yuiv.Proofs.C13Vec
 /-
 C13 — sparse and dense matrix containers implement ordinary matrix algebra.
 
@@ -437,5 +439,104 @@ theorem to_dense_entries (A : SpMat R) (i j : Nat) (hi : i < A.nrows) (hj : j < 
 theorem to_sparse_entries (A : DMat R) :
     A.toSparse.nrows = A.nrows ∧ A.toSparse.ncols = A.ncols ∧ A.toSparse.WF ∧
       ∀ i j, i < A.nrows → j < A.ncols → A.toSparse.entry i j = A.get i j := toSparse_spec A
+
+/-! ### `util::perm_for_indices` -/
+
+/-- for distinct indices below `n`: a valid permutation of `0..n`; with `vec = indices ++ (the other indices,
+ascending)` it sends `vec[pos]` to `pos` — the listed indices first, in order, then the rest in order -/
+theorem perm_for_indices_places (n : Nat) (indices : List Nat) (hnd : indices.Nodup) (hb : ∀ i ∈ indices, i < n) :
+    ∃ p, permForIndices n indices = ok p ∧ p.Valid ∧ p.dim = n ∧
+      ∀ pos (h : pos < (indices ++ (List.range n).filter (fun i => !indices.contains i)).length),
+        p.fn ((indices ++ (List.range n).filter (fun i => !indices.contains i))[pos]) = pos :=
+  permForIndices_spec n indices hnd hb
+
+theorem perm_for_indices_listed_first (n : Nat) (indices : List Nat) (hnd : indices.Nodup) (hb : ∀ i ∈ indices, i < n) :
+    ∃ p, permForIndices n indices = ok p ∧ p.Valid ∧ p.dim = n ∧
+      ∀ k (h : k < indices.length), p.fn indices[k] = k := permForIndices_listed n indices hnd hb
+
+theorem perm_for_indices_rejects (n : Nat) (indices : List Nat) (h : ∃ i ∈ indices, ¬ i < n) :
+    permForIndices n indices = panic := permForIndices_reject n indices h
+
+/-! ### sparse vectors -/
+
+theorem spvec_from_entries (d : Nat) (es : List (Nat × R)) (h : ∀ p ∈ es, p.2 ≠ 0 → p.1 < d) :
+    ∃ v, SpVec.fromEntries d es = ok v ∧ v.dim = d ∧ v.WF ∧ ∀ i, v.entry i = if i < d then sumAt es i else 0 :=
+  vfromEntries_ok d es h
+
+theorem spvec_from_entries_rejects (d : Nat) (es : List (Nat × R)) (h : ∃ p ∈ es, p.2 ≠ 0 ∧ ¬ p.1 < d) :
+    SpVec.fromEntries d es = panic := vfromEntries_panic d es h
+
+theorem spvec_permute_entries (v : SpVec R) (hv : v.WF) (p : Perm) (hp : p.Valid) (hd : p.dim = v.dim) :
+    ∃ w, v.permute p = ok w ∧ w.dim = v.dim ∧ w.WF ∧ ∀ i, i < v.dim → w.entry (p.fn i) = v.entry i :=
+  vpermute_spec v hv p hp hd
+
+theorem spvec_subvec_entries (v : SpVec R) (hv : v.WF) (a b : Nat) (hab : a ≤ b) :
+    ∃ w, v.subvec a b = ok w ∧ w.dim = b - a ∧ w.WF ∧ ∀ i, i < b - a → w.entry i = v.entry (a + i) :=
+  subvec_spec v hv a b hab
+
+theorem spvec_subvec_rejects (v : SpVec R) (a b : Nat) (hab : ¬ a ≤ b) : v.subvec a b = panic := subvec_reject v a b hab
+
+theorem spvec_split_entries (v : SpVec R) (hv : v.WF) (k : Nat) (hk : k ≤ v.dim) :
+    ∃ x y, v.split k = ok (x, y) ∧ x.dim = k ∧ y.dim = v.dim - k ∧ x.WF ∧ y.WF ∧
+      (∀ i, i < k → x.entry i = v.entry i) ∧ (∀ i, i < v.dim - k → y.entry i = v.entry (k + i)) :=
+  split_spec v hv k hk
+
+theorem spvec_split_rejects (v : SpVec R) (k : Nat) (hk : ¬ k ≤ v.dim) : v.split k = panic := split_reject v k hk
+
+theorem spvec_stack_entries (v w : SpVec R) (hv : v.WF) (hw : w.WF) :
+    ∃ u, v.stack w = ok u ∧ u.dim = v.dim + w.dim ∧ u.WF ∧
+      ∀ i, i < v.dim + w.dim → u.entry i = if i < v.dim then v.entry i else w.entry (i - v.dim) :=
+  vstack_spec v w hv hw
+
+theorem spvec_from_dense (l : List R) :
+    ∃ v, SpVec.ofDense l = ok v ∧ v.dim = l.length ∧ v.WF ∧ ∀ i, v.entry i = l.getD i 0 := ofDense_spec l
+
+/-- `to_dense` / `into_vec` -/
+theorem spvec_to_dense (v : SpVec R) (hv : v.WF) :
+    ∃ l, v.toDense = ok l ∧ l.length = v.dim ∧ ∀ i, i < v.dim → l.getD i 0 = v.entry i := toDense_spec v hv
+
+/-- `stack_vecs`: the raw data stays valid after shifting the row indices by the running dimension -/
+theorem spvec_stack_vecs (vs : List (SpVec R)) (hv : ∀ v ∈ vs, v.WF) :
+    SpVec.stackVecs vs = ok ⟨totalDim vs, shiftedEnts 0 vs⟩ ∧ (⟨totalDim vs, shiftedEnts 0 vs⟩ : SpVec R).WF :=
+  stackVecs_spec vs hv
+
+/-- entries of the stacked vector, vector by vector -/
+theorem spvec_stack_vecs_entries (v : SpVec R) (vs : List (SpVec R)) (hv : v.WF) (hvs : ∀ w ∈ vs, w.WF) (n0 i : Nat) :
+    sumAt (shiftedEnts n0 (v :: vs)) i
+      = if i < n0 + v.dim then (if n0 ≤ i then v.entry (i - n0) else 0) else sumAt (shiftedEnts (n0 + v.dim) vs) i :=
+  shiftedEnts_entry v vs hv hvs n0 i
+
+/-- `from_dense_data` (row-major) -/
+theorem from_dense_data_entries (m n : Nat) (data : List R) (hl : data.length = m * n) :
+    ∃ A, fromDenseData m n data = ok A ∧ A.nrows = m ∧ A.ncols = n ∧ A.WF ∧
+      ∀ i j, i < m → j < n → A.entry i j = data.getD (i * n + j) 0 := fromDenseData_spec m n data hl
+
+theorem col_vec_entries (A : SpMat R) (hA : A.WF) (j : Nat) (hj : j < A.ncols) :
+    ∃ v, A.colVec j = ok v ∧ v.dim = A.nrows ∧ v.WF ∧ ∀ i, v.entry i = A.entry i j := colVec_spec A hA j hj
+
+theorem col_vec_rejects (A : SpMat R) (j : Nat) (hj : ¬ j < A.ncols) : A.colVec j = panic := colVec_reject A j hj
+
+/-! ### the hypotheses are satisfiable: a matrix with a stored zero, permutations, a history with `reduce` -/
+
+/-- `[[1, 0*, 0], [0, 0, -1]]` with an explicitly stored zero at `(0, 1)` -/
+def exA : SpMat Int := ⟨2, 3, [[(0, 1)], [(0, 0)], [(1, -1)]]⟩
+def exP : Perm := ⟨2, some [1, 0]⟩
+def exQ : Perm := ⟨3, some [2, 0, 1]⟩
+
+example : exA.WF := ⟨rfl, by decide, by decide⟩
+example : exP.Valid ∧ exQ.Valid ∧ exP.dim = exA.nrows ∧ exQ.dim = exA.ncols := by
+  refine ⟨?_, ?_, rfl, rfl⟩ <;> (intro l h; cases h; decide)
+example : fromEntries 2 3 [(0, 0, (1 : Int)), (0, 1, 2), (0, 1, -2), (1, 2, -1), (1, 1, 0)] = ok exA := by rfl
+example : ∃ B, exA.permute exP exQ = ok B ∧ B.entry 1 2 = 1 ∧ B.entry 0 1 = -1 := ⟨_, rfl, by decide, by decide⟩
+example : (0 ≤ 1 ∧ 1 ≤ exA.nrows) ∧ (1 ≤ 3 ∧ 3 ≤ exA.ncols) := by decide
+example : [2, 0].Nodup ∧ ∀ i ∈ [2, 0], i < 4 := by decide
+example : permForIndices 4 [2, 0] = ok ⟨4, some [1, 2, 0, 3]⟩ := by decide
+
+/-- `sub [2,0]` after a reduced two-factor transform, merged with a permutation -/
+def exH : Hist Int :=
+  .merge (.reduce (.sub (.append (.id 3) (SpMat.id 3) (SpMat.id 3)) [2, 0])) (.appendPerm (.id 2) exP)
+
+example : exH.Good := ⟨⟨trivial, id_wf 3, id_wf 3⟩, trivial⟩
+example : ∃ t, exH.run = ok t ∧ t.srcDim = 3 ∧ t.tgtDim = 2 ∧ t.fMats.length = 2 := ⟨_, rfl, rfl, rfl, rfl⟩
 
 end Yuiv.C13
